@@ -34,6 +34,22 @@ from .errors import (
 from .regex import RegexTimeoutError
 
 
+# Verification hook: stays None (one comparison per instruction) unless a
+# harness installs a callback while MICROJS_VERIF=1 is set in the environment.
+_verif_hook = None
+
+
+def _verif_install(hook) -> bool:
+    """Install a per-instruction observer; refused unless MICROJS_VERIF=1."""
+    global _verif_hook
+    import os
+
+    if os.environ.get("MICROJS_VERIF") != "1":
+        return False
+    _verif_hook = hook
+    return True
+
+
 def js_round(x: float, ndigits: int = 0) -> float:
     """Round using JavaScript-style 'round half away from zero' instead of Python's 'round half to even'."""
     if ndigits == 0:
@@ -215,6 +231,8 @@ class VM:
                 arg = bytecode[frame.ip]
                 frame.ip += 1
 
+            if _verif_hook is not None:
+                _verif_hook(self, "main", op, arg, frame)
             # Execute opcode - wrap in try/except to catch Python JS exceptions
             try:
                 self._execute_opcode(op, arg, frame)
@@ -2343,6 +2361,8 @@ class VM:
                     arg = bytecode[frame.ip]
                     frame.ip += 1
 
+                if _verif_hook is not None:
+                    _verif_hook(self, "cb", op, arg, frame)
                 self._execute_opcode(op, arg, frame)
 
             # Get result from stack
@@ -2468,6 +2488,8 @@ class VM:
 
     def _throw(self, exc: JSValue) -> None:
         """Throw an exception."""
+        if _verif_hook is not None:
+            _verif_hook(self, "throw", None, None, None)
         # Try to add source location to error object
         if isinstance(exc, JSObject):
             line, column = self._get_source_location()
